@@ -57,6 +57,16 @@ def gen_case(rng, W, pausable):
                 q.append(("jac", len(g.ops), (ti, indep, dep))); g.emit("jac %s mat" % rng.choice(["auto", "fwd", "rev"]))
         # the recording is still what it was
         q.append(("sametape", len(g.ops), ti)); g.emit("tape")
+        # true derivatives w.r.t. the variables that were alive at this new_recording (independent textbook
+        # forward-mode oracle): later derivatives depend only on what executed after new_recording
+        if not pausable:
+            g.emit("clri"); g.emit("clrd")
+            outs = list(g.live)
+            for k in outs:
+                g.emit("indep %d" % k)
+            for k in outs:
+                g.emit("dep %d" % k)
+            q.append(("true", len(g.ops), outs)); g.emit("jac %s mat" % rng.choice(["auto", "fwd", "rev"]))
     g.emit("clrg")
     return g.ops, {"queries": q, "pausable": pausable}
 
@@ -91,6 +101,23 @@ def oracle_case(ops, meta, il):
         elif kind == "sametape":
             if line != il[info]:
                 return "op %d: the recording changed during derivative passes" % oi
+        elif kind == "true":
+            de = tc.dual_eval(ops[:oi], il[:oi])
+            if de is not None:
+                env, inputs = de
+                outs = info
+                p = tc.parse_J(line)
+                if p is None or len(p[0]) != len(outs):
+                    return "op %d (%s): expected a Jacobian, got %r" % (oi, ops[oi], line[:200])
+                for r, y in enumerate(outs):
+                    if tc.UNDEF in env[y][1]:
+                        continue
+                    for c, x in enumerate(outs):
+                        if x not in inputs:
+                            continue   # created after new_recording: not an input of this recording
+                        if p[0][r][c] != env[y][1].get(x, 0):
+                            return ("op %d (%s): d x%d / d x%d = %d, textbook forward-mode evaluation of what executed after "
+                                    "new_recording gives %d" % (oi, ops[oi], y, x, p[0][r][c], env[y][1].get(x, 0)))
         elif kind in ("pass", "jac"):
             ti = info[0]
             if ti not in tapes:
